@@ -16,11 +16,13 @@ Section DiffGeo.
   Definition tri_edges (v : V) (t : tri) : vec3 K * vec3 K * vec3 K :=
     let '(p0, p1, p2) := tri_pts o v t in (vsub o p2 p1, vsub o p0 p2, vsub o p1 p0).   (* e0, e1, e2 *)
 
+  (* ln[ln == 0] = 1 / vol[vol == 0] = 1 (after fix 841e03d: only an exactly vanishing measure is replaced) *)
+  Definition guard_zero (x : K) : K := if eqb o x (zero o) then one o else x.
   Definition tria_grad1 (v : V) (f : nat -> K) (t : tri) : vec3 K :=
     let '(a, b, c) := t in
     let '(e0, e1, e2) := tri_edges v t in
     let n := cross o e2 (vneg o e1) in
-    let ln := guard_len o (norm o n) in
+    let ln := guard_zero (norm o n) in
     let lni := one o / ln in
     let nn := vscale o lni n in
     let s := vadd o (vadd o (vscale o (f a) e0) (vscale o (f b) e1)) (vscale o (f c) e2) in
@@ -32,7 +34,7 @@ Section DiffGeo.
   Definition tria_div1 (v : V) (t : tri) (X : vec3 K) : K * K * K :=
     let '(e0, e1, e2) := tri_edges v t in
     let n := cross o e2 (vneg o e1) in
-    let ln := guard_len o (norm o n) in
+    let ln := guard_zero (norm o n) in
     let cot0 := dot o e2 (vneg o e1) / ln in
     let cot1 := dot o e0 (vneg o e2) / ln in
     let cot2 := dot o e1 (vneg o e0) / ln in
@@ -41,7 +43,7 @@ Section DiffGeo.
   Definition tria_div2_1 (v : V) (t : tri) (X : vec3 K) : K * K * K :=
     let '(e0, e1, e2) := tri_edges v t in
     let n := cross o e2 (vneg o e1) in
-    let ln := guard_len o (norm o n) in
+    let ln := guard_zero (norm o n) in
     let nn := vscale o (one o / ln) n in
     (dot o (cross o e0 nn) X, dot o (cross o e1 nn) X, dot o (cross o e2 nn) X).
   Definition corner_triples (ts : list tri) (xs : list (K * K * K)) : list (nat * K) :=
@@ -56,7 +58,7 @@ Section DiffGeo.
         (scatter o (div_len (tri_flat ts)) (corner_triples ts (map (fun '(t, x) => tria_div2_1 v t x) (combine ts X)))).
 
   (* ---- tetrahedra *)
-  Definition guard_abs (x : K) : K := if ltb o (absK o x) (eps52 o) then one o else x.
+  Definition guard_abs (x : K) : K := guard_zero x.
   Definition tet_grad1 (v : V) (f : nat -> K) (t : tet) : vec3 K :=
     let '(a, b, c, d) := t in
     let '(p0, p1, p2, p3) := tet_pts o v t in
